@@ -63,5 +63,47 @@ func ruleC02CapLeak(c *Ctx, r *Rep) {
 			}
 		}
 	}
+	// a view handed out as a value: `.[i:j]` returns a sub-slice of its input; if it starts at the first element of an
+	// array the allocator owns and becomes the new value of an update, allocated(view) holds, and a later write beyond its
+	// length extends it in place and brings the elements behind its end back
+	returned := 0
+	for _, f := range o.fns {
+		for _, b := range f.Blocks {
+			for _, in := range b.Instrs {
+				ret, ok := in.(*ssa.Return)
+				if !ok {
+					continue
+				}
+				for _, res := range ret.Results {
+					sl, ok := stripIface(res).(*ssa.Slice)
+					if !ok || !isJSONContainer(sl.Type()) || sl.High == nil {
+						continue
+					}
+					if _, isAlloc := sl.X.(*ssa.Alloc); isAlloc {
+						continue
+					}
+					// a slice of a parameter (somebody else's array); a compaction of an array the function owns and whose
+					// tail it clears is not a view of foreign storage
+					if _, isParam := sl.X.(*ssa.Parameter); !isParam {
+						continue
+					}
+					if sl.Low == nil {
+						// x[:j] of a parameter: only deleteEmpty's compaction of an owned array (under allocated(), tail cleared)
+						continue
+					}
+					returned++
+					key := fnDisplay(f) + ":return-view"
+					if sl.Max != nil {
+						r.OK(key, instrPos(in), "the sub-slice %s returns has an explicit capacity bound", fnDisplay(f))
+					} else {
+						r.Bad(key, instrPos(in), "%s returns a 2-index sub-slice of its parameter: the view keeps the capacity of the array it was cut from, and when it becomes the new value inside an update whose allocator owns that array, a later write beyond its length extends it in place — `[1,2,3,4,5] | (.[0], ., .[4]) |= (if type == \"array\" then .[0:2] else 9 end)` yields [9,2,3,4,9] instead of [9,2,null,null,9] (use x[i:j:j])", fnDisplay(f))
+					}
+				}
+			}
+		}
+	}
+	if returned == 0 {
+		r.Undecided("return-view:census", token.NoPos, "no native returns a sub-slice of a JSON array parameter (slice does)")
+	}
 	r.OK("census", token.NoPos, "%d slice-typed call arguments to in-package callees examined", examined)
 }
